@@ -36,6 +36,16 @@ CHECKS = {
         "afixed == not apoly, ploidy+1 genotype classes summing to n) are exact. Absence is not established.",
         "Trusts numpy integer sums and Python Fraction; integer dtypes too narrow for the result are outside the domain.",
         "DESIGN.md §3 C09"),
+    "C10": (
+        "Hypothesis-generated breeding histories (select/truncate/mate programs); invariants checked after every step against integer allele counts",
+        "Model-based history search: founders with forced fixed and single-copy loci, additive models with any signs / exact zeros / "
+        "1..3 traits, 1..6 steps of sub-selection (with repeats), truncation and mating through all seven protocols, population sizes "
+        "steered through 49, 98, 103, 107 (where 1/(2n) is not exactly invertible). After every step, through four input forms "
+        "(phased matrix, unphased matrix, raw dosage array, frequency vector): limits equal their definition on integer counts, "
+        "bracket every individual's value (oracle values and the library's own gebv), usl never rises, lsl never falls, lost alleles "
+        "never reappear, limits coincide with the common value when everything is fixed.",
+        "Histories are bounded (<= 6 steps, <= 107 taxa, <= 9 loci); diploid binary coding.",
+        "DESIGN.md §3 C10"),
 }
 
 NOT_APPLICABLE = {
